@@ -212,6 +212,34 @@ def main():
         for l, a, b1, b0 in zip(sl, real, m1, m0):
             ck.evaluated(); ck.count("tie_stralloc")
             if a != b1 and a != b0: mism.append(dict(stream="stralloc growth", input=l, real=a, model="%s (allocation succeeds) / %s (fails)" % (b1, b0)))
+    # substdio and getln (Mem/Substdio.v) against substdo.c / substdi.c / getln.c behind a scripted descriptor (short and
+    # interrupted reads and writes, errors), buffer sizes from 1 byte to beyond SUBSTDIO_OUTSIZE
+    sl2 = []
+    for _ in range(350 * N):
+        cap = rng.choice([1, 2, 3, 7, 16, 100, 8192, 9000])
+        scr = ",".join(rng.choice(["k0", "k1", "k2", "k5", "k99", "k9000", "i", "i", "e"] if rng.random() < 0.3 else ["k0", "k1", "k3", "k50", "k8191", "i"]) for _ in range(rng.randint(0, 12))) or "-"
+        ops = []
+        for _ in range(rng.randint(1, 8)):
+            k_ = rng.choice("ppbbfP")
+            if k_ == "f": ops.append("f")
+            else:
+                n_ = rng.choice([0, 1, 2, cap - 1, cap, cap + 1, 2 * cap + 1, 5, 20] + ([8191, 8192, 8193, 17000] if rng.random() < 0.15 else [])) if rng.random() < 0.5 else rng.randint(0, 30)
+                ops.append(k_ + vlib.hx(bytes(rng.randrange(256) for _ in range(max(0, n_)))))
+        sl2.append("out %d %s %s" % (cap, scr, ",".join(ops)))
+    for _ in range(350 * N):
+        cap = rng.choice([1, 2, 3, 7, 16, 100, 8192])
+        scr = ",".join(rng.choice(["k0", "k1", "k2", "k5", "k99", "i", "i", "e"] if rng.random() < 0.3 else ["k0", "k1", "k3", "k50", "i"]) for _ in range(rng.randint(0, 15))) or "-"
+        src_ = bytes(rng.choice(b"ab\n\n\nc") for _ in range(rng.choice([0, 1, 2, 5, 40, 200, 200, 9000 if rng.random() < 0.2 else 60])))
+        sl2.append("in %d %s 0a %s" % (cap, scr, vlib.hx(src_)))
+    real = tie("h_substdio", None, sl2, "substdio", link=["getln.a", "substdio.a", "stralloc.a", "error.a", "str.a"])
+    if real:
+        mod, _, _ = vlib.run_lines(drv, sl2)
+        for l_, a_, b_ in zip(sl2, real, mod):
+            ck.evaluated(); ck.count("tie_substdio_" + l_.split()[0])
+            if l_.startswith("out"):
+                if not b_.endswith(" 1"): fails.append(("memory:substdio:model-copy-outside-buffer", dict(kind="input", surface="substdio", line=l_[:2000], model=b_[:200]), len(l_))); continue
+                b_ = b_[:-2]
+            if a_ != b_: mism.append(dict(stream="substdio / getln", input=l_[:600], real=a_[:300], model=b_[:300]))
     # dns.c: the record walk (Mem/DnsParse.v) against dns_ip / dns_ptr / dns_mxip on scripted responses whose names are
     # uncompressed labels or one backward pointer (the shape the model's dn_expand stand-in covers); counts, types,
     # lengths and truncation points are arbitrary
